@@ -19,7 +19,8 @@ from harness.common import sim
 
 PROP = "C25"
 LEAN_MODULES = ["LunaVerif.Props.C25", "LunaVerif.Lemmas.C25Tx12", "LunaVerif.Lemmas.C25TxIo", "LunaVerif.Props.C25Tx",
-                "LunaVerif.Lemmas.C25RxFront", "LunaVerif.Lemmas.C25RxBack", "LunaVerif.Props.C25Rx"]
+                "LunaVerif.Lemmas.C25RxFront", "LunaVerif.Lemmas.C25RxBack", "LunaVerif.Props.C25Rx",
+                "LunaVerif.Lemmas.C25RxFifo"]
 DRIVER = "Driver/C25.lean"
 REQUIRED_THEOREMS = ["decode_encode", "no_seven_ones_on_wire", "stuff_error_detected", "never_drives_in_nondriving",
                      "pulls_follow_requests",
@@ -28,7 +29,9 @@ REQUIRED_THEOREMS = ["decode_encode", "no_seven_ones_on_wire", "stuff_error_dete
                      "idle_stays_quiescent", "reset_quiescent", "no_ready_without_valid",
                      # cycle-level receive chain (Model/Phy/FsRx.lean)
                      "rx_pipeline_decodes_encode", "stuff_error_detected_cycle", "run_split", "front_blocks",
-                     "back_blocks", "unstuff_run", "shifter_bytes", "lock", "reset_idle", "idle_holds_error"]
+                     "back_blocks", "unstuff_run", "shifter_bytes", "lock", "reset_idle", "idle_holds_error",
+                     # the clock-domain crossing (Model/Phy/FsRxCdc.lean)
+                     "fifo_isolated_write", "fifo_idle"]
 RULE = ("tx: packets of 1..70 random / all-ones / stuffing-boundary bytes, tx_data garbage between packets, random "
         "inter-packet gaps, the producer holds each byte until tx_ready; the D+/D- waveform is compared bit by bit "
         "with the Lean `encode` and with an independent Python encoder.  txc/txp: the cycle-level Lean model of the "
